@@ -236,6 +236,30 @@ def is_z3(v):
     return isinstance(v, z3.ExprRef)
 
 
+class SymKey:
+    """A symbolic term used as a key of a concrete dict (identified by the term itself)."""
+
+    def __init__(self, term):
+        self.term = term
+
+    def __hash__(self):
+        return hash(self.term.get_id())
+
+    def __eq__(self, other):
+        return isinstance(other, SymKey) and self.term.eq(other.term)
+
+    def __repr__(self):
+        return f"<key {self.term}>"
+
+
+def _dkey(k):
+    return SymKey(k) if is_z3(k) else k
+
+
+def _undkey(k):
+    return k.term if isinstance(k, SymKey) else k
+
+
 def lift(v):
     """Concrete scalar -> z3 term."""
     if is_z3(v):
@@ -653,8 +677,8 @@ class Interp:
         elif isinstance(obj, list) and isinstance(idx, int):
             obj[idx] = v
             ctx.mutated(obj)
-        elif isinstance(obj, dict) and is_concrete(idx):
-            obj[idx] = v
+        elif isinstance(obj, dict) and (is_concrete(idx) or is_z3(idx)):
+            obj[_dkey(idx)] = v  # (a symbolic key is a new entry unless the very same term was used before)
             ctx.mutated(obj)
         elif isinstance(obj, Rec) and "__setitem__" in obj.methods:
             obj.methods["__setitem__"](ctx, obj, (idx, v), {})
@@ -1660,8 +1684,12 @@ class Interp:
                 return list(obj)
             raise Unsupported(f"list method {name} with symbolic arguments", node)
         if isinstance(obj, dict):
-            if name in ("items", "keys", "values"):
-                return list(getattr(obj, name)())
+            if name == "keys":
+                return [_undkey(k) for k in obj.keys()]
+            if name == "items":
+                return [(_undkey(k), v) for k, v in obj.items()]
+            if name == "values":
+                return list(obj.values())
             if name == "get":
                 k = args[0]
                 if is_concrete(k):
